@@ -46,7 +46,8 @@ def run_bounded(pid, tier, seed, focus=(), only=()):
         cmd += ["--focus", ",".join(sorted(focus))]
     if only:
         cmd += ["--only", ",".join(sorted(only))]
-    env = dict(os.environ, NUMPOLY_REPO=REPO, PYTHONWARNINGS="ignore")
+    journal = out + ".journal"
+    env = dict(os.environ, NUMPOLY_REPO=REPO, PYTHONWARNINGS="ignore", VERIF_JOURNAL=journal)
     p = subprocess.run(cmd, capture_output=True, text=True, env=env, cwd=VERIF)
     try:
         res = json.load(open(out))
@@ -56,7 +57,30 @@ def run_bounded(pid, tier, seed, focus=(), only=()):
         if os.path.exists(out):
             os.unlink(out)
     if res is None:
-        raise RuntimeError(f"bounded host crashed (exit {p.returncode}):\n{p.stderr[-3000:]}")
+        # the interpreter died (e.g. a compiled kernel corrupted memory): the journal names the input being run
+        crashed = None
+        try:
+            crashed = json.load(open(journal))
+        except Exception:
+            pass
+        if crashed is not None and p.returncode < 0 or (crashed is not None and "Traceback" not in (p.stderr or "")):
+            os.makedirs(REPLAY_DIR, exist_ok=True)
+            key = hashlib.sha1(json.dumps(crashed["input"], sort_keys=True, default=str).encode()).hexdigest()[:12]
+            path = os.path.join(REPLAY_DIR, f"{pid}-{crashed['check'].split(':', 1)[1].replace('/', '_')}-{key}.json")
+            observed = f"the interpreter crashed (exit status {p.returncode}) while running this input: {(p.stderr or '')[-300:]}"
+            json.dump(dict(kind="concrete", property=pid, check=crashed["check"], functions=[], finding_key=f"{crashed['check']}:{key}",
+                           input=crashed["input"], observed=observed, replay="./vcheck replay " + path), open(path, "w"), indent=1,
+                      default=str)
+            res = dict(property=pid, tier=tier, seed=seed, checks=[dict(name=crashed["check"], functions=[], inputs=1, failures=1,
+                                                                         wall_s=0, samples=[crashed["input"]], note="crash")],
+                       failures=[dict(check=crashed["check"], functions=[], replay=path, finding_key=f"{crashed['check']}:{key}",
+                                      observed=observed, input=crashed["input"])], evaluations=1, distinct=1, wall_s=0.0)
+        else:
+            if os.path.exists(journal):
+                os.unlink(journal)
+            raise RuntimeError(f"bounded host crashed (exit {p.returncode}):\n{p.stderr[-3000:]}")
+    if os.path.exists(journal):
+        os.unlink(journal)
     return res
 
 
